@@ -35,7 +35,7 @@ TRUSTED = [
     'C15: a storage failure is an exception raised *before* a database write / commit / TPM call takes effect; crashes inside '
     'sqlite or inside a file write are below the model',
 ]
-RULE = ('histories of 6..25 operations over 3 identity names: new/touch identity, new key (EC; RSA-2048 in the thorough tier; '
+RULE = ('histories of 6..25 operations over 3 identities (names: see below): new/touch identity, new key (EC; RSA-2048 in the thorough tier; '
         'unsupported type; 35% with an explicit key_id k1 / k2 given as str / bytes / bytearray / memoryview - also the id of '
         'a LIVE key (refused: ValueError, nothing may change), of a DELETED key (the key name is generated again: a new key '
         'pair under the old name), of a key of ANOTHER identity, the same ids under /i1 and /i1/i3; key_id_type sha256 / '
@@ -62,7 +62,17 @@ RULE = ('histories of 6..25 operations over 3 identity names: new/touch identity
         '(del_key, Identity.del_key, del_identity) and a key is generated again under the SAME key name, with and without '
         'close/reopen in between and afterwards, then signers are requested by every selector (also with a locator used '
         'before the deletion); no signer may sign with the pair of a deleted key, and the self-signed certificate new_key '
-        'makes must verify under the stored bits. Opt-in (VERIF_C15_EXTRA=1, reported findings outside the default run): '
+        'makes must verify under the stored bits. Alphabet of NAMES (45% of the histories, 40% of `reuse`, stream `nested`): '
+        'the identities 0..3 and the explicit key ids k1 / k2 get names drawn per case (fields idn / xk, written by the '
+        'harness\'s own TLV writer) - names containing KEY / self / a key id, an identity named AS a key or a certificate '
+        'of another identity or living below one (also below its full name), KEY in front, doubled names, the parent, '
+        'siblings differing in the type / case / last octet of one component, the empty name, empty / binary / non-UTF-8 / '
+        'typed / digest / 200-octet components; key ids KEY / self / empty / typed / binary; operations, labels and the '
+        'model line are unchanged (the model works on labels, it gets the encoded key names for the file names), so every '
+        'operation and every signer check is addressed to such identities; stream `nested`: the parent\'s key k1 exists, '
+        'the child below it has keys under the same ids, certificates on both sides, signers by every selector before / '
+        'after reopen and after the other side was deleted; the oracle additionally reports del_identity / del_key '
+        'raising KeyError for an item the views list. Opt-in (VERIF_C15_EXTRA=1, reported findings outside the default run): '
         'a second handle on the same store, Identity / Key objects kept across deletes, default_cert().name as signing '
         'argument. Non-trivial = at '
         'least two keys exist at some point and at least one delete or set-default or signer request succeeded')
@@ -450,7 +460,7 @@ NFAULT = {'ni': 4, 'ti': 12, 'nk': 7, 'ic': 2, 'sdi': 2, 'sdk': 2, 'sdc': 2, 'di
 
 
 def cases(rng, tier):
-    n = 450 if tier == 'quick' else 2500
+    n = 415 if tier == 'quick' else 2500
     for j in range(n):
         m = _Mirror()
         ops = []
@@ -488,9 +498,11 @@ def cases(rng, tier):
             m.apply(o)
         if reopen_each:
             ops = [x for o in ops for x in ((o, _op('ro')) if o.get('f') is None and o['c'] != 'ro' else (o,))][:60]
-        yield {'ops': ops}
+        yield _named(rng, {'ops': ops}, 0.45)
     for _ in range(60 if tier == 'quick' else 600):
-        yield _reuse_case(rng, tier)
+        yield _named(rng, _reuse_case(rng, tier), 0.4)
+    for _ in range(45 if tier == 'quick' else 500):
+        yield _nested_case(rng, tier)
     if EXTRA:
         for _ in range(120 if tier == 'quick' else 600):
             yield _held_case(rng, tier)
@@ -511,6 +523,112 @@ def cases(rng, tier):
 
 XLABELS = ['k1', 'k2']
 XFORMS = 'ssbam'       # key_id given as str / bytes / bytearray / memoryview of the encoded one-Component id
+
+
+# ------------------------------------------------------------------------------- the alphabet of identity names
+# A case may carry its own names for the identities 0..NIDS ('idn': a list of names, a name = list of encoded components
+# in hex) and its own components for the explicit key ids k1 / k2 ('xk').  Without them the names are /i0 /i1 /i2 /i1/i3
+# and the key ids k1 / k2.  Operations, labels and the model line are the same whatever the names are: the keychain
+# operations are addressed to identities whose names contain KEY / self / a key id / a certificate-shaped suffix, that
+# live below another identity's key or certificate name, that are prefixes of each other or differ in one component's
+# type, case or trailing octet, with empty / binary / typed / long components.  (Written with the harness's own TLV
+# writer: component types < 253, values < 253 octets.)
+def _c(typ, val):
+    assert typ < 253 and len(val) < 253
+    return (bytes([typ, len(val)]) + bytes(val)).hex()
+
+
+def _g(text):
+    return _c(8, text.encode())
+
+
+C_KEY, C_SELF, C_V1 = _g('KEY'), _g('self'), _c(0x36, b'\x01')
+CLASSIC_IDN = [[_g('i0')], [_g('i1')], [_g('i2')], [_g('i1'), _g('i3')]]
+CLASSIC_XK = {'k1': _g('k1'), 'k2': _g('k2')}
+ODD_COMPS = [_c(8, b''), _c(8, b'\x00\xff/%'), _c(8, b'\xc3\x28'), _c(32, b'kw'), _c(1, bytes(range(32))), _c(0x36, b'\x07'),
+             _c(0x3a, b'\x00'), _c(8, b'L' * 200), _c(8, b'key'), _c(9, b'KEY'), _c(8, b'KEY\x00'), _c(8, b' '), _c(8, b'..'),
+             _c(8, '\u00e9'.encode()), _c(252, b'x')]
+BASE_NAMES = [['i1'], ['site'], ['a', 'b'], ['KEY'], ['a', 'KEY'], ['self'], ['KEY', 'KEY'], ['a', 'KEY', 'k1'],
+              ['alice', 'KEY', 'k1', 'self', 'v'], ['a', 'KEY', 'k2', 'op'], ['KEY', 'alice', 'KEY', 'k1', 'KEY', 'k2'],
+              ['self', 'KEY', 'NDNCERT'], ['a', 'key', 'b'], ['KEY', 'a', 'b', 'c']]
+XK_POOL = [_g('KEY'), _g('self'), _c(8, bytes(range(1, 9))), _c(8, b''), _c(9, b'k1'), _c(0x36, b'\x01'), _g('k1/KEY'),
+           _c(1, bytes(range(32))), _g('iss1'), _c(8, b'\xff\x00')]
+
+
+def _flip(comp):
+    """relatives of a component: another type, another case, one more octet"""
+    b = bytes.fromhex(comp)
+    typ, val = b[0], b[2:]
+    return [_c(9 if typ == 8 else 8, val), _c(typ, val.swapcase()) if val.swapcase() != val else _c(typ, val + b'x'),
+            _c(typ, val + b'\x00') if len(val) < 250 else _c(typ, val[:-1]), _c(typ, val[:-1]) if val else _c(typ, b'\x00')]
+
+
+def _rel_name(rng, base, xk):
+    """a name related to `base` (a list of hex components)"""
+    k1, k2 = xk['k1'], xk['k2']
+    r = rng.randrange(20)
+    if r == 0:
+        return base + [rng.choice([_g('op'), _g('i3')] + ODD_COMPS)]
+    if r == 1:
+        return base + [C_KEY]
+    if r == 2:
+        return base + [C_KEY, k1]                                      # named as a key of base
+    if r in (3, 4, 5):
+        return base + [C_KEY, k1, rng.choice([_g('op'), _g('operator'), C_KEY, C_SELF] + ODD_COMPS[:4])]   # below that key
+    if r == 6:
+        return base + [C_KEY, k1, _g('iss1'), C_V1]                    # named as a certificate of that key
+    if r == 7:
+        return base + [C_KEY, k1, _g('iss1'), C_V1, _g('sub')]         # below that certificate
+    if r == 8:
+        return base + [C_KEY, k1, C_SELF, _c(0x36, b'\x00')]
+    if r == 9:
+        return base + [C_KEY, k1, C_SELF, _c(0x36, b'\x00'), _c(1, bytes(32))]      # a full name (implicit digest) of it
+    if r == 10:
+        return base + [C_SELF]
+    if r == 11:
+        return base + [C_KEY, C_KEY]
+    if r == 12:
+        return base + [C_KEY, k2, _g('op'), C_KEY, k1]                 # a key name below a key name
+    if r == 13 and base:
+        return base[:-1]                                               # the parent
+    if r == 14 and base:
+        return base[:-1] + [rng.choice(_flip(base[-1]))]               # a sibling: type / case / length of the last component
+    if r == 15:
+        return [C_KEY] + base
+    if r == 16 and len(base) >= 2:
+        return base[-2:] + base[:-2]
+    if r == 17:
+        return base + base
+    if r == 18:
+        return [rng.choice(ODD_COMPS) for _ in range(rng.randint(1, 3))]
+    return [_g(t) for t in rng.choice(BASE_NAMES)]
+
+
+def _name_table(rng, nested=False):
+    """names for the identities 0..NIDS and components for the explicit key ids, all distinct"""
+    xk = dict(CLASSIC_XK)
+    q = rng.random()
+    if q < 0.3:
+        xk['k1'] = rng.choice(XK_POOL[:2] if rng.random() < 0.4 else XK_POOL)      # (KEY / self: more often)
+    if 0.2 < q < 0.4:
+        xk['k2'] = rng.choice([x for x in (XK_POOL[:2] if rng.random() < 0.4 else XK_POOL) if x != xk['k1']])
+    q = rng.random()
+    if q < 0.75:
+        one = [_g(t) for t in rng.choice(BASE_NAMES)]
+    elif q < 0.9:
+        one = [_g(t) for t in rng.choice(BASE_NAMES)][:rng.randint(0, 2)] + [rng.choice(ODD_COMPS) for _ in range(rng.randint(1, 2))]
+    else:
+        one = [rng.choice(ODD_COMPS) for _ in range(rng.randint(1, 3))]
+    while True:
+        tab = [None, one, None, None]
+        for i in (3, 2, 0):
+            base = rng.choice([t for t in tab if t is not None])
+            tab[i] = _rel_name(rng, base, xk)
+        if nested:      # identity 3 below (or named as) key k1 of identity 1
+            tab[3] = one + [C_KEY, xk['k1']] + rng.choice([[], [_g('operator')], [_g('iss1'), C_V1], [_g('iss1'), C_V1, _g('sub')],
+                                                           [C_KEY], [C_SELF], [rng.choice(ODD_COMPS)], [_g('a'), _g('b')]])
+        if len(set(map(tuple, tab))) == NIDS + 1 and all(len(t) <= 12 for t in tab):     # (the empty name is a name too)
+            return tab, xk
 
 
 def _xkey(rng, m, i, tier, lab=None):
@@ -602,6 +720,78 @@ def _reuse_case(rng, tier):
     return {'ops': ops}
 
 
+def _named(rng, case, p):
+    """with probability p the history is addressed to identities / key ids drawn from the alphabet of names"""
+    if rng.random() < p:
+        case['idn'], case['xk'] = _name_table(rng, nested=rng.random() < 0.3)
+    return case
+
+
+def _nested_case(rng, tier):
+    """an identity living below (or named as) a key of another identity, both with keys under the SAME key ids: the
+    parent's key exists, certificates are imported on both sides, and every operation that takes a key / certificate
+    NAME (get_signer by key and by cert, del_key, del_identity, set_default_*, import_cert) is addressed to each of them,
+    before and after close/reopen and after the other one was deleted"""
+    m = _Mirror()
+    ops = []
+
+    def add(*os_):
+        for o in os_:
+            ops.append(o)
+            m.apply(o)
+    par, ch = 1, 3
+    add(_op(rng.choice(['ti', 'ni']), par))
+    add(dict(_op('nk', par, 'e'), x=['k1', rng.choice(XFORMS)]))
+    kp = [par, m.next - 1]
+    add(_op(rng.choice(['ti', 'ti', 'ni']), ch))
+    q = rng.random()
+    if q < 0.5:
+        add(dict(_op('nk', ch, 'e'), x=[rng.choice(XLABELS), rng.choice(XFORMS)]))
+    elif q < 0.7 or not any(i == ch for i in m.keys.values()):
+        add(_op('nk', ch, 'e'))
+    kc_ = [ch, max(k for k, i in m.keys.items() if i == ch)]
+    if rng.random() < 0.3:
+        add(_op('ti', 2))
+    if rng.random() < 0.4:
+        add(_op('ic', kc_, kc_ + [1]))
+        if rng.random() < 0.5:
+            add(_op('sdc', kc_, kc_ + [1]))
+    if rng.random() < 0.3:
+        add(_op('ic', kp, kp + [1]))
+    if rng.random() < 0.3:
+        add(_op('sdi', rng.choice([par, ch])))
+    if rng.random() < 0.5:
+        add(_op('ro'))
+
+    def signers():
+        sels = [['k', kc_], ['c', kc_ + [0]], ['i', ch], ['k', kp], ['c', kp + [0]], ['i', par], ['d'],
+                ['x', ch, kc_, None, rng.choice(['', 'k', 'ik'])], ['x', None, kc_, kc_ + [0], ''], ['c', kc_ + [1]]]
+        rng.shuffle(sels)
+        for sel in sels[:rng.randint(2, 5)]:
+            add(_op('gs', sel, rng.choice([None, None, 1])))
+    signers()
+    q = rng.random()
+    if q < 0.3:
+        add(dict(_op('dk', kc_), **({'v': 1} if rng.random() < 0.3 else {})))
+    elif q < 0.5:
+        add(_op('di', ch))
+    elif q < 0.65:
+        add(dict(_op('dk', kp), **({'v': 1} if rng.random() < 0.3 else {})))
+    elif q < 0.8:
+        add(_op('di', par))
+    elif q < 0.9:
+        add(_op('sdk', ch, kc_), _op('dc', kc_ + [0]))
+    if rng.random() < 0.3:
+        add(_op('ro'))
+    signers()
+    for _ in range(rng.randint(0, 6)):
+        add(_gen_op(rng, m, 'quick'))
+    case = {'ops': ops}
+    if rng.random() < 0.85:
+        case['idn'], case['xk'] = _name_table(rng, nested=True)
+    return case
+
+
 def _held_case(rng, tier):
     """Identity / Key objects obtained through the API are kept while their owner is deleted and other items are created
     (sqlite hands the row id out again), then read as mappings and used as signing arguments"""
@@ -655,16 +845,28 @@ def shrink(case):
     for i in range(len(ops)):
         # never separate a faulted op from its retry
         if ops[i].get('f') is not None:
-            yield {'ops': ops[:i] + ops[i + 2:]}
+            yield dict(case, ops=ops[:i] + ops[i + 2:])
             continue
         if ops[i].get('retry'):
             continue
-        yield {'ops': ops[:i] + ops[i + 1:]}
+        yield dict(case, ops=ops[:i] + ops[i + 1:])
     for i, o in enumerate(ops):
         if o['c'] == 'nk' and o['a'][1] == 'r':
-            yield {'ops': ops[:i] + [dict(o, a=[o['a'][0], 'e'])] + ops[i + 1:]}
+            yield dict(case, ops=ops[:i] + [dict(o, a=[o['a'][0], 'e'])] + ops[i + 1:])
         if o.get('f'):
-            yield {'ops': ops[:i] + [dict(o, f=o['f'] - 1)] + ops[i + 1:]}
+            yield dict(case, ops=ops[:i] + [dict(o, f=o['f'] - 1)] + ops[i + 1:])
+    # the names: the plain ones altogether, then one identity / key id at a time, then shorter names
+    if 'idn' in case or 'xk' in case:
+        yield {k: v for k, v in case.items() if k not in ('idn', 'xk')}
+        idn, xk = case.get('idn', CLASSIC_IDN), case.get('xk', CLASSIC_XK)
+        for lab in XLABELS:
+            if xk[lab] != CLASSIC_XK[lab] and CLASSIC_XK[lab] not in xk.values():
+                yield dict(case, xk=dict(xk, **{lab: CLASSIC_XK[lab]}))
+        for i in range(NIDS + 1):
+            for nm in [CLASSIC_IDN[i]] + [idn[i][:j] + idn[i][j + 1:] for j in range(len(idn[i]))]:
+                if nm != idn[i] and nm not in idn and \
+                        (len(nm) < len(idn[i]) or (nm == CLASSIC_IDN[i] and len(nm) == len(idn[i]))):
+                    yield dict(case, idn=idn[:i] + [nm] + idn[i + 1:])
 
 
 # =============================================================================== implementation
@@ -703,7 +905,12 @@ def _parse_key_label(l):
 class _Rig:
     """one scratch keychain + the mapping between model names and NDN names, key pairs and pair numbers"""
 
-    def __init__(self):
+    def __init__(self, case=None):
+        case = case or {}
+        self.idn = [[bytes.fromhex(c) for c in nm] for nm in case.get('idn', CLASSIC_IDN)]
+        self.id_of = {b''.join(nm): i for i, nm in enumerate(self.idn)}
+        assert len(self.idn) == NIDS + 1 and len(self.id_of) == NIDS + 1, 'identity names must be distinct'
+        self.xk = {lab: bytes.fromhex(c) for lab, c in case.get('xk', CLASSIC_XK).items()}
         from ndn.security.keychain.keychain_sqlite3 import KeychainSqlite3
         from ndn.security.tpm.tpm_file import TpmFile
         from ndn.encoding import Name, Component
@@ -747,7 +954,7 @@ class _Rig:
         self.cert_data = {}
         self.file_cache = {}      # (file name, sha256 of content) -> pair | 'unk'
         self.badself = []         # labels of keys whose self-signed certificate does not verify under the stored key bits
-        self.xcomp = {bytes(Component.from_str('k%d' % d)): d for d in range(1, 10)}
+        self.xcomp = {comp: int(lab[1:]) for lab, comp in self.xk.items()}
 
     def tick(self):
         if self.armed is not None:
@@ -835,8 +1042,12 @@ class _Rig:
 
     # ---- names
     def idname(self, i):
-        # identity 3 lives UNDER identity 1: names that are prefixes of each other
-        return self.Name.from_str('/i1/i3' if i == 3 else f'/i{i}')
+        # the case's names (default: /i0 /i1 /i2 /i1/i3 - identity 3 lives UNDER identity 1)
+        return [bytes(c) for c in self.idn[i]]
+
+    def xcomp_of(self, lab):
+        """the component of an explicit key id (labels outside the table: the text itself)"""
+        return self.xk[lab] if lab in self.xk else bytes(self.Component.from_str(lab))
 
     def canon(self, k):
         """a key referred to by the number of a key pair is the key NAME that pair was generated for (which may hold
@@ -854,7 +1065,7 @@ class _Rig:
         if lab in self.key_ref:
             return self.key_ref[lab]
         if isinstance(kid, str) and kid[:1] == 'x' and kid[1:].isdigit():
-            nm = self.idname(idn) + [self.KEYC, self.Component.from_str('k' + kid[1:])]
+            nm = self.idname(idn) + [self.KEYC, self.xcomp_of('k' + kid[1:])]
         elif isinstance(kid, str):
             nm = self.idname(idn) + [self.KEYC, self.Component.from_bytes(b'fab' + kid.encode())]
         else:
@@ -919,10 +1130,7 @@ class _Rig:
         return self.cert_label.get(bytes(self.Name.to_bytes(name)), 'unk')
 
     def ilabel(self, name):
-        m = re.fullmatch(r'(?:/i1)?/i(\d+)', self.Name.to_str(name))
-        if not m or (m.group(0).startswith('/i1/') != (m.group(1) == '3')):
-            return -1
-        return int(m.group(1))
+        return self.id_of.get(b''.join(bytes(c) for c in name), -1)
 
     # ---- one operation
     def do(self, op):
@@ -939,8 +1147,13 @@ class _Rig:
                 kw['key_size'] = op['sz']
             if op.get('x'):
                 lab, form = op['x']
-                comp = self.Component.from_str(lab) if lab else b''
-                kw['key_id'] = {'s': lab, 'b': bytes(comp), 'a': bytearray(comp), 'm': memoryview(bytes(comp))}[form]
+                comp = self.xcomp_of(lab) if lab else b''
+                text = lab
+                if lab and comp != bytes(self.Component.from_str(lab)):
+                    text = self.Component.to_str(comp)
+                    if not text or bytes(self.Component.from_str(text)) != comp:
+                        text = bytes(comp)                  # no text form that reads back as this component
+                kw['key_id'] = {'s': text, 'b': bytes(comp), 'a': bytearray(comp), 'm': memoryview(bytes(comp))}[form]
             if op.get('idt'):
                 kw['key_id_type'] = op['idt']
             if op.get('v') and not kw:
@@ -1291,8 +1504,8 @@ def _refs(op):
     return ks, cs
 
 
-def _run_history(ops):
-    rig = _Rig()
+def _run_history(ops, case=None):
+    rig = _Rig(case)
     try:
         trace = []
         uk, uc = [], []
@@ -1348,11 +1561,11 @@ def _run_history(ops):
 
 def run_impl(case):
     ops = case['ops']
-    trace, names = _run_history(ops)
+    trace, names = _run_history(ops, case)
     out = {'trace': trace, 'names': names}
     if any(o.get('f') is not None for o in ops):
         ref_ops = [dict(o) for o in ops if o.get('f') is None]
-        out['ref'] = _run_history(ref_ops)[0]
+        out['ref'] = _run_history(ref_ops, case)[0]
     return out
 
 
@@ -1611,6 +1824,15 @@ def _oracle_trace(trace, check_reopen=True):
             if s not in sc:
                 excused.pop(s)
         # deletes
+        if rec['exc'] == 'KeyError' and prev is not None and not faulted and c in ('di', 'dk'):
+            # membership and lookup agree, and a delete removes: an identity / a key the views list (under the owner it
+            # was asked for) cannot be "not there" when its deletion is asked for by the same name
+            if c == 'di' and a[0] in prev['iter'] and prev['probe'][str(a[0])]['in']:
+                return f'op {n}: del_identity raises KeyError for an identity the keychain lists (nothing was deleted)'
+            if c == 'dk':
+                iv = prev['ids'].get(str(a[0][0]))
+                if iv and _lab_key(a[0]) in iv['iter'] and (iv['probe'].get(_lab_key(a[0])) or {}).get('in'):
+                    return f'op {n}: del_key raises KeyError for a key its identity lists (nothing was deleted)'
         if rec['exc'] is None and prev is not None:
             gone = []
             if c == 'di':
@@ -1791,7 +2013,55 @@ def tags(case, impl):
                 if dels and any(dels[-1] < x < i for x in ros):
                     t.append('keyname-recreated:reopen-between')
     t.append('len:%d' % (len(case['ops']) // 5 * 5))
+    t += _name_tags(case, impl)
     return t
+
+
+def _name_tags(case, impl):
+    """which shapes of identity names / key ids the history was addressed to (only identities that existed count)"""
+    idn, xk = case.get('idn'), case.get('xk', CLASSIC_XK)
+    if idn is None:
+        return ['names:plain']
+    t = ['names:alphabet']
+    seen = set()
+    for r in impl['trace']:
+        seen.update(i for i in r['snap']['iter'] if i >= 0)
+    keynames = set()
+    for r in impl['trace']:
+        for i, iv in r['snap']['ids'].items():
+            for kl in iv['iter']:
+                if kl in impl['names']:
+                    keynames.add(impl['names'][kl])
+    enc = {i: ''.join(idn[i]) for i in range(NIDS + 1)}
+    for i in sorted(seen):
+        nm = idn[i]
+        if C_KEY in nm:
+            t.append('idname:has-KEY')
+        if C_SELF in nm:
+            t.append('idname:has-self')
+        if any(c in nm for c in xk.values()):
+            t.append('idname:has-key-id')
+        if any(c[:2] != '08' or c == '0800' or not all(32 < b < 127 for b in bytes.fromhex(c)[2:]) for c in nm):
+            t.append('idname:odd-component')
+        for j in sorted(seen):
+            if j != i and len(idn[j]) < len(nm) and nm[:len(idn[j])] == idn[j]:
+                t.append('idname:below-another-identity')
+        # the identity is named as / lives below a key that EXISTED in this history
+        for kn in keynames:
+            body = kn[4:] if kn[:2] == '07' and int(kn[2:4], 16) < 253 else None
+            if body and enc[i].startswith(body):
+                t.append('idname:at-or-below-a-live-key')
+                break
+    if xk != CLASSIC_XK:
+        t.append('keyid:alphabet')
+    for r in impl['trace']:
+        o = r['op']
+        if o['c'] in ('gs', 'dk', 'di', 'sdk', 'sdc', 'ic', 'dc') and not r['exc']:
+            ks, _ = _refs(o)
+            ids = {k[0] for k in ks} | ({o['a'][0]} if o['c'] == 'di' else set())
+            if any(isinstance(i, int) and 0 <= i <= NIDS and C_KEY in idn[i] for i in ids):
+                t.append('keyish-identity:%s:ok' % o['c'])
+    return sorted(set(t))
 
 
 def finding_key(case, impl, why):
